@@ -1,4 +1,4 @@
-CONSTANTS SegMax = 3  NodeId = 1  Walk = TRUE  WalkLen = 30  ProbeKind = "full"  PumpN = 0  ProbeReset = FALSE
+CONSTANTS SegMax = 3  NodeId = 1  Walk = TRUE  WalkLen = 30  ProbeKind = "full"  PumpN = 0  ProbeReset = FALSE  ProbeB = FALSE
 CONSTANT Dict <- MCDict  Mux <- MCMux  Letters <- LettersFull
 INIT Init
 NEXT Next
